@@ -107,6 +107,15 @@ def handle : List String → String
         s!"{distinctTags s} {(tagsHeld s).length}"
       | none => "bad-op"
     | _, _ => "bad-op"
+  | ["mkinst", name, ans] =>
+    -- the construction step (Model/C18Tag.lean mkInstance): `ans` = what the entropy source answered to the
+    -- constructor's read, `none` = the read failed; answer: the new instance's tag, or `none` = no instance
+    match bytesOfHex name, (if ans == "none" then some none else (bytesOfHex ans).map some) with
+    | some n, some a =>
+      match mkInstance n a with
+      | some i => hexOfBytes i.tag
+      | none => "none"
+    | _, _ => "bad-op"
   | "connect" :: toks =>
     -- one CONNECT under a configuration: outcome + Via lines of the head the upstream proxy receives
     match decodeCfg toks, decodeCtx toks, decodeConnect toks with
